@@ -315,10 +315,51 @@ fn check_walk(v: &[EstTime], path: &[usize], links: &[Link], origins: &[u32], de
 pub struct C15;
 impl C15 {
     fn gen(g: &mut Gen, _tier: Tier) -> DispatchCase {
+        let mut c = Self::gen_plain(g, _tier);
+        // exact coincidences (4 %): the train is exactly as long as one stage of its route, so
+        // that its tail clears that stage in the very step in which its front arrives on the
+        // next one, and the next stage is a few metres short of the 5-mile look-ahead, so that
+        // this happens in the last step before the known path is extended
+        let n = c.net.stages.len();
+        if n >= 3 && g.bool(0.04) {
+            let t = &mut c.trains[0];
+            if t.from.is_none() && t.to.is_none() && !t.branch {
+                let k = g.usize(1, n - 2);
+                let nx = if t.east { k + 1 } else { k - 1 };
+                let o = if t.east { 0 } else { n - 1 };
+                let o_len = c.net.stages[o].main.length.min(c.net.stages[o].side.as_ref().map(|x| x.length).unwrap_or(f64::INFINITY));
+                if o_len >= 2500.0 && nx != o {
+                    let l = c.net.stages[k].main.length.min(((o_len - 200.0) / 100.0).floor() * 100.0).max(600.0);
+                    c.net.stages[k].main.length = l;
+                    if let Some(sd) = c.net.stages[k].side.as_mut() {
+                        sd.length = l;
+                    }
+                    t.train.length_override = Some(l);
+                    let l5 = 8040.0 + g.int(0, 6) as f64;
+                    c.net.stages[nx].main.length = l5;
+                    if let Some(sd) = c.net.stages[nx].side.as_mut() {
+                        sd.length = l5;
+                    }
+                    for st in [k, nx] {
+                        let st = &mut c.net.stages[st];
+                        st.main.bump = None;
+                        if let Some(sd) = st.side.as_mut() {
+                            sd.bump = None;
+                        }
+                        let max_rise = 0.008 * st.main.length;
+                        st.rise = (st.rise.clamp(-max_rise, max_rise) * 10.0).round() / 10.0;
+                    }
+                }
+            }
+        }
+        c
+    }
+    fn gen_plain(g: &mut Gen, _tier: Tier) -> DispatchCase {
         gen_dispatch_case(g, 1, &CorridorOpts { max_stages: 9, p_branch: 0.4, p_short_east: 0.08, p_short_ends: std::env::var("VERIF_SHORT_ENDS").ok().and_then(|s| s.parse().ok()).unwrap_or(0.12), ..Default::default() })
     }
     fn check(case: &DispatchCase, cx: &mut Ctx) {
         scenario_labels(case, cx);
+        cx.label_if(case.trains[0].train.length_override.map(|l| case.net.stages.iter().any(|s| s.main.length == l)).unwrap_or(false), "train_exactly_as_long_as_a_stage_of_its_route");
         let b = match build(case) {
             Ok(b) => b,
             Err(e) => {
